@@ -64,6 +64,10 @@ type Contract struct {
 	// Closure contracts: parameters of the form `apply fn(i, j) == expr` give
 	// meaning to function-typed parameters; see spec.go.
 	ReplayReq []string // extra input restrictions for the replay sweep (evaluation cost)
+	InstCounters bool   // instantiate quantified hypotheses at the counters of enclosing loops (and at 0)
+	Logical    []string // logical (ghost, universally quantified) integer variables
+	Footprint  []string // worker closure: [lo, hi) interval of work items it owns exclusively
+	ForkJoin   []string // spawner: lo, hi of the worker indices, total number of work items, witness(x)
 	Insts      []string // extra instantiation terms for quantified hypotheses, over the goal's bound variable
 	OpaqueFns  []string // spec functions kept uninterpreted in this function's VCs
 	SkipSafety bool    // run-time-panic obligations are assumed, not proved (effects-only contract)
@@ -342,6 +346,14 @@ func (cs *ContractSet) parseFile(fset *token.FileSet, pkgPath string, f *ast.Fil
 			} else {
 				cs.Errors = append(cs.Errors, ln.pos+": use-step outside loop")
 			}
+		case "inst-counters":
+			cur.InstCounters = true
+		case "logical":
+			cur.Logical = append(cur.Logical, strings.Fields(rest)...)
+		case "footprint":
+			cur.Footprint = splitTop(rest, ';')
+		case "forkjoin":
+			cur.ForkJoin = splitTop(rest, ';')
 		case "inst":
 			cur.Insts = append(cur.Insts, rest)
 		case "opaque-fn":
